@@ -28,7 +28,24 @@ func (u *Unit) bytesOf(st *State, s Term) Term {
 	}
 	for _, tok := range tokenize(s.S) {
 		if u.boundNow[tok] {
-			u.specFail("bytes() of a slice that depends on the quantified variable %s", tok)
+			// the slice depends on a quantified variable: use a per-heap function with axioms that
+			// quantify over slices and indices (never over arrays)
+			f, ok := u.bytesCache["fn|"+h.S]
+			if !ok {
+				f = Term{u.sym("bytesAt"), "Bytes"}
+				u.lines = append(u.lines, fmt.Sprintf("(declare-fun %s (Slice) Bytes)", f.S))
+				u.assume(tTrue, Term{fmt.Sprintf("(forall ((s Slice)) (! (= (blen (%s s)) (slen s)) :pattern ((%s s))))", f.S, f.S), "Bool"})
+				u.assume(tTrue, Term{fmt.Sprintf("(forall ((s Slice) (i Int)) (! (=> (and (<= 0 i) (< i (slen s))) (= (select (barr (%s s)) i) %s)) :pattern ((select (barr (%s s)) i))))",
+					f.S, sel(sel(h, Term{"(sarr s)", "Int"}), Term{"(+ (soff s) i)", "Int"}).S, f.S), "Bool"})
+				u.bytesCache["fn|"+h.S] = f
+				// constants introduced earlier for closed slices in the same heap denote the same values
+				for k, b := range u.bytesCache {
+					if strings.HasPrefix(k, h.S+"|") {
+						u.assume(tTrue, eq2(b, app("Bytes", f.S, Term{k[len(h.S)+1:], "Slice"})))
+					}
+				}
+			}
+			return app("Bytes", f.S, s)
 		}
 	}
 	b := u.fresh("bytes", "Bytes")
@@ -40,6 +57,9 @@ func (u *Unit) bytesOf(st *State, s Term) Term {
 	if row.st() == nil {
 		u.assume(tTrue, Term{fmt.Sprintf("(forall ((k Int)) (! (=> (and (<= %s k) (< k (+ %s %s))) (= (select %s k) (select (barr %s) (- k %s)))) :pattern ((select %s k))))",
 			off.S, off.S, ln.S, row.S, b.S, off.S, row.S), "Bool"})
+	}
+	if f, ok := u.bytesCache["fn|"+h.S]; ok {
+		u.assume(tTrue, eq2(b, app("Bytes", f.S, s)))
 	}
 	u.bytesCache[key] = b
 	return b
@@ -118,6 +138,10 @@ func init() {
 		"github.com/pkg/errors.Errorf": func(u *Unit, st *State, a []Val, rt types.Type, r Term) (Val, bool) {
 			return freshNonNilErr(u, st, rt), true
 		},
+		"github.com/pkg/errors.Wrap":      wrapErr,
+		"github.com/pkg/errors.Wrapf":     wrapErr,
+		"github.com/pkg/errors.WithStack": wrapErr,
+		"github.com/pkg/errors.Cause":     wrapErr,
 		"sync/atomic.LoadInt32":  atomicLoad,
 		"sync/atomic.LoadInt64":  atomicLoad,
 		"sync/atomic.LoadUint32": atomicLoad,
@@ -134,6 +158,16 @@ func init() {
 		"sync/atomic.CompareAndSwapInt64": atomicCAS,
 		"sync/atomic.CompareAndSwapUint32": atomicCAS,
 	}
+}
+
+// wrapErr: pkg/errors wrappers return nil exactly when the wrapped error is nil; the result is the
+// deterministic function errwrap(err) otherwise (so that Cause(Wrap(e)) style chains stay related).
+func wrapErr(u *Unit, st *State, a []Val, rt types.Type, r Term) (Val, bool) {
+	e := u.uninterp("errwrap", "Iface", a[0].T)
+	u.note("github.com/pkg/errors Wrap/Wrapf/Cause: result is nil iff the argument is nil (trusted model)")
+	res := u.def(ite(eq(a[0].T, Term{"inil", "Iface"}), Term{"inil", "Iface"}, e))
+	u.assume(tTrue, implies(not(eq(a[0].T, Term{"inil", "Iface"})), not(eq(e, Term{"inil", "Iface"}))))
+	return Val{T: res, Typ: rt}, true
 }
 
 func ptrArgLoc(u *Unit, st *State, p Val) *Loc {
